@@ -17,8 +17,7 @@ from ..loader import AnalysisError, unparse, call_name, attr_chain, stmt_of
 from ..dataflow import target_names, mutations_in
 from ..solver_model import Sweep, solver_function, PARTITIONS
 
-TECHNIQUE = ('static analysis: derived-field coherence (cache invalidation on every path), write sets of flag-guarded blocks, '
-             'call-shape lint of every Logger call, use-kind classification of the global object counter')
+TECHNIQUE = ('static analysis: derived-field coherence (cache invalidation on every path), branch-outcome facts for trace-only statements on flattened methods and their write sets, memo / done-marker data members (reset dominance), call-shape lint of every Logger call, use-kind classification and write discipline of the global object counter')
 EXPLANATION = (
     'Finds the cached derived field of the solver (variable list rebuilt only when empty) and requires every assignment of '
     'its source (the parser) to be followed on every path by an invalidation; computes the write set of every trace-guarded '
